@@ -16,6 +16,7 @@ shown to compute exactly these structural verifiers for 32-byte keys (`verifyInc
 import FuelVerif.Lemmas.SparseProof
 import FuelVerif.Props.C12
 import FuelVerif.Lemmas.SparseBytes
+import FuelVerif.Lemmas.SparseRefine
 namespace FuelVerif.Smt
 open Tree
 
@@ -200,5 +201,20 @@ theorem history_proofs_bytes (H : Bytes → Bytes) (hok : HashOK H) (ops : List 
   have h := history_proofs bit32 width (hashes32 H hok.len) keyExt_bytes (collisionFree_bytes H hok) ops k
   rw [← maxProofLen_eq_width] at h
   exact h
+
+/-! ### the storage-level `generate_proof` -/
+
+open FuelVerif.SmtBytes FuelVerif.SmtRefine in
+/-- **`MerkleTree::generate_proof` of the storage-level transcription refines the structural one**: on
+every state that represents a structural tree `t` (root node = node of `t`, all nodes of `t` stored),
+`path_set` reads exactly the structural path from the node store and `generate_proof` returns the
+structural proof (side hashes, inclusion/exclusion, exclusion leaf) — so `proof_kind`,
+`inclusion_complete`, `exclusion_complete` transfer to the transcribed Rust algorithm. -/
+theorem generateProof_refines {σ : Type} (S : FuelVerif.SmtStore.StoreOps σ) (H : Bytes → Bytes)
+    (hok : HashOK H) (s : FuelVerif.SmtStore.SMT σ) (t : FuelVerif.SmtRefine.T)
+    (hr : Rep H hok S s t) (k : Key32) :
+    FuelVerif.SmtStore.generateProof H S s k.val =
+      .ok (proofToBytes (generateProof bit32 (hashes32 H hok.len) k t)) :=
+  generateProof_rep H hok S hr k
 
 end FuelVerif.Smt
